@@ -148,6 +148,11 @@ def accessors(h):
     return acc
 
 
+def run_optimized(ctx):
+    """the same obligations with the interpreter in -O mode (validation written as assert statements does nothing there)"""
+    run(ctx)
+
+
 def run(ctx):
     res = ctx.res
     res.rule_text = ("OUT: every accessor/query named in the statement evaluated with caching off / on-cold / on-warm; every mutable container reachable through the result "
